@@ -21,7 +21,9 @@
 (***************************************************************************)
 EXTENDS Integers, Sequences, FiniteSets, TLC
 
-CONSTANTS E,        \* rounding tolerance of recorded offsets (0 on the model's lattice, 1 on quantised traces)
+CONSTANTS Variant,  \* "fixed" = tree with the F-C03-3 repair (curve abandoned when a point reaches OR passes the
+                    \* start of the path), "pinned" = the original strict test (index underflow, selftest only)
+          E,        \* rounding tolerance of recorded offsets (0 on the model's lattice, 1 on quantised traces)
           VPerO     \* speed units per offset unit per second (1 on the lattice, 2^16/2^6 on traces)
 
 Max2(a, b) == IF a > b THEN a ELSE b
@@ -59,6 +61,9 @@ TargetLeLimitOf(pts) == \A k \in 1..Len(pts) : pts[k][4] <= pts[k][3]
 (* carries the limit of the zone the curve has just reached, may overshoot the start of that zone   *)
 (* by less than one step of travel; the zone-start point (target = limit, same limit) then follows  *)
 (* out of order. calc_speeds handles that pair correctly and both carry the same limit.             *)
+(* A curve that is abandoned because it reached or passed the start of the path (offset <= 0,       *)
+(* braking_point.rs:144-147) is followed by the start point of whatever zone it was in: that pair   *)
+(* is not constrained (TableSafe still bounds every stretch either point governs).                  *)
 Travel(l) == l \div VPerO + (IF VPerO > 1 THEN 1 ELSE 0)
 Overshoot(a, b) == /\ b[4] = b[2] \/ b[4] = b[3]
                    /\ a[2] = b[2]
@@ -66,7 +71,7 @@ Overshoot(a, b) == /\ b[4] = b[2] \/ b[4] = b[3]
 MonotoneOf(pts) ==
   \A k \in 1..(Len(pts) - 1) :
     LET a == pts[k]  b == pts[k+1] IN
-    (a[1] >= 0 /\ b[1] >= 0) => (b[1] <= a[1] \/ Overshoot(a, b))
+    (a[1] > 0 /\ b[1] >= 0) => (b[1] <= a[1] \/ Overshoot(a, b))
 
 ----------------------------------------------------------------------------
 (* Input-level domain predicate ShortWindow (DESIGN.md C03, F-C03-1): a speed increase followed,   *)
@@ -94,6 +99,9 @@ Pt(o, l, t) == <<o, l, l, t>>
 RECURSIVE Back(_, _, _)
 Back(sp, idx, off) == IF idx = 0 THEN 0 ELSE IF off <= sp[idx][1] THEN Back(sp, idx-1, off) ELSE idx
 
+(* "Exit if the braking point reached or passed the beginning of the path" (braking_point.rs:144-147) *)
+Passed(o) == IF Variant = "fixed" THEN o <= 0 ELSE o < 0
+
 (* the inner loop; returns <<points, idx, underflow>> *)
 RECURSIVE Curve(_, _, _)
 Curve(sp, pts, idx0) ==
@@ -105,10 +113,10 @@ Curve(sp, pts, idx0) ==
        THEN \* "exit after adding a couple of points if the next braking curve point will exceed the speed limit"
             LET p2 == Append(pts, Pt(bp[1] - lim, lim, bp[4])) IN      \* carries bp's target into this zone
             IF bp[2] = lim THEN <<p2, idx, FALSE>>
-            ELSE IF p2[Len(p2)][1] < 0 THEN <<p2, idx, FALSE>> ELSE Curve(sp, p2, idx)
+            ELSE IF Passed(p2[Len(p2)][1]) THEN <<p2, idx, FALSE>> ELSE Curve(sp, p2, idx)
        ELSE \* "Add normal point to braking curve": may jump over sp[idx]'s offset
             LET p2 == Append(pts, Pt(bp[1] - (bp[2] + A \div 2), bp[2] + A, bp[4])) IN
-            IF p2[Len(p2)][1] < 0 THEN <<p2, idx, FALSE>> ELSE Curve(sp, p2, idx)
+            IF Passed(p2[Len(p2)][1]) THEN <<p2, idx, FALSE>> ELSE Curve(sp, p2, idx)
 
 (* the outer loop over the speed points, last to first; idx = points still to process *)
 RECURSIVE Outer(_, _, _)
@@ -149,4 +157,5 @@ Admitted == sp # <<>> /\ (Domain = "all" \/ ~ShortWindow)
 TableSafe     == Admitted /\ ~under => TableSafeOf(sp, end, tbl)
 TargetLeLimit == Admitted /\ ~under => TargetLeLimitOf(tbl)
 Monotone      == Admitted /\ ~under => MonotoneOf(tbl)
+NoUnderflow   == Admitted => ~under            \* recalc never steps below its first speed point (F-C03-3)
 =============================================================================
